@@ -41,6 +41,15 @@ class T:
     def __repr__(self):
         return show(self)
 
+    def __deepcopy__(self, memo):
+        return self
+
+    def __copy__(self):
+        return self
+
+    def __reduce__(self):
+        return (T, (self.op, self.args, self.sort))
+
     @property
     def is_const(self):
         return self.op == "const"
@@ -654,6 +663,12 @@ class S:
     @property
     def sort(self):
         return self.t.sort
+
+    def __deepcopy__(self, memo):
+        return self
+
+    def __copy__(self):
+        return self
 
     # arithmetic
     def __add__(self, o): return _wrap(add, self, o)
